@@ -120,12 +120,7 @@ def c20(run):
 # ------------------------------------------------------------------ Ledger.tla scenarios (C01-C04, C12)
 def sig_ledger(rec, res, v):
     """Signature of a disagreement on a Ledger behaviour (see known_findings.json)."""
-    kind = v.get("kind")
-    if rec.get("expect", {}).get("deferred") and kind in (
-            "accepted_invalid", "rejected_valid", "assertion_wrong_computed", "assertion_wrong_posting", "wrong_entry",
-            "wrong_error_kind"):
-        return "assert_after_omitted_same_account"
-    return kind
+    return v.get("kind")
 
 
 def ledger_scenarios(run, scenarios, workers=8, mode="ledger", keep=None):
@@ -359,9 +354,7 @@ def c12(run):
     run.assumptions += LEDGER_ASSUME + ["an alias declared for two canonical names silently keeps the first (the property is silent)",
                                         "the register's account filter compares the written name (it is documented to become a pattern); filtering by an alias is outside the claim",
                                         "`okane accounts` is outside the claim (it lists names without processing declarations)"]
-    # behaviours that reach the deferred-assertion shape through an alias belong to C02's recorded finding
-    ledger_scenarios(run, ["Alias"] if run.tier == "quick" else ["Alias", "AliasT"], mode="ledger-alias",
-                     keep=lambda r: not r["expect"].get("deferred"))
+    ledger_scenarios(run, ["Alias"] if run.tier == "quick" else ["Alias", "AliasT"], mode="ledger-alias")
     ledger_traces(run)
     run.exhaustive = True
 
@@ -744,6 +737,8 @@ def c06(run):
         feed(run, "total", nd, key=lambda r: "pricedb:" + r["text"], nontrivial=hard)
     # include graphs with cycles / missing files
     run.add_model(tlc_check("MCLoader.tla", "Loader_ArbLive.cfg", workers=4))
+    # book-keeping terminates as well: Termination of Ledger.tla under weak fairness, on the Plain script
+    run.add_model(tlc_check("MCLedger.tla", "Ledger_PlainLive.cfg", workers=4))
     nd, n, st = tlc_gen("MCLoader.tla", "Loader_Arb.cfg", "C06-loader", workers=8, timeout=2400, dedup=True)
     st["scenario"] = "include graphs (failing ones)"
     run.add_model(st)
